@@ -1773,9 +1773,9 @@ def loadArmFromURDF(file_name):
         return element.children[max_ind]
 
     def determineAxis(joint_location, axis):
-        joint_rotation = tm([joint_location[3], joint_location[4], joint_location[5]])
-        axis_unit = tm([axis[0], axis[1], axis[2], 0, 0, 0])
-        axis_new = (joint_rotation @ axis_unit)[0:3]
+        #Rotate with the pose's own rotation matrix; rebuilding it from the axis-angle vector
+        #loses the axis direction when the joint frame is close to a half turn from the base
+        axis_new = joint_location.gRot() @ np.array([axis[0], axis[1], axis[2]], dtype=float)
         #if sum(abs(axis)) > 0:
         #    axis_new = abs(axis_new)
         #else:
